@@ -1,0 +1,37 @@
+// This Source Code Form is subject to the terms of the Mozilla Public
+// License, v. 2.0. If a copy of the MPL was not distributed with this
+// file, You can obtain one at http://mozilla.org/MPL/2.0/.
+
+//go:build verif
+
+package qtransform
+
+// Contracts for the deductive verifier in /verif (govc). Comment-only file: it
+// adds no code. Lines starting with //@ are parsed by govc; see /verif/DESIGN.md.
+
+// C07 (finalizer ordering in controller-driven lifecycles), queue-based transform controller.
+// The trace facts (tdPtr/tdReady, gonePtr/goneOK, finPtr/finOK) are ghost state written by the
+// interface contracts of owned.Writer (pkg/state/owned/zz_contracts_verif.go).
+
+//@ func (*QController[Input, Output]).reconcileTearingDown
+//@   props C07
+//@   requires [wired] ctrl != nil && r != nil
+//@   at Destroy #1
+//@     assert [output-destroyed-only-when-teardown-ready] tdReady && tdPtr == outPtr
+//@   at RemoveFinalizer #1
+//@     assert [finalizer-released-only-after-output-gone] goneOK && gonePtr == outPtr
+//@   at RemoveFinalizer #2
+//@     assert [finalizer-released-only-after-output-gone] goneOK && gonePtr == outPtr
+//@
+//@ func (*QController[Input, Output]).handleOutputTearingDown
+//@   props C07
+//@   requires [wired] ctrl != nil && r != nil
+//@   at Destroy #1
+//@     assert [output-destroyed-only-when-tearing-down] output != nil && mdOf(output).phase == 1
+//@     assert [output-destroyed-only-without-finalizers] len(mdOf(output).fins) == 0
+//@
+//@ func (*QController[Input, Output]).handleDestroyOutput
+//@   props C07
+//@   requires [wired] ctrl != nil && r != nil
+//@   at Destroy #1
+//@     assert [output-destroyed-only-when-teardown-ready] tdReady && tdPtr.blk == mdOf(mappedOut).blk && tdPtr.off == mdOf(mappedOut).off
